@@ -78,7 +78,8 @@ def _no_aslr():
 
 NO_ASLR = _no_aslr()
 BATCH_PREFIX = {}    # design key -> the designs built before it (and itself) in its worker process
-EXPORTERS = ['output_to_verilog', 'output_verilog_testbench', 'print_vcd', 'print_trace', 'simulation_trace']
+EXPORTERS = ['output_to_verilog', 'output_verilog_testbench', 'print_vcd', 'print_trace', 'simulation_trace',
+             'fastsim_trace']
 KINDCODE = {'Input': 0, 'Output': 1, 'Register': 2, 'Const': 3}
 
 
@@ -640,7 +641,7 @@ def search_exports(ctx, exp_res, textdir, specs):
             for h in hashes[1:]:
                 t2 = load_text(textdir, key, ex, h)
                 n_inv = r0['n_invalid_tracked'] if ex == 'print_vcd' else r0['n_invalid']
-                why = explain_difference(t1, t2, names, n_inv, shared) if ex != 'simulation_trace' else None
+                why = explain_difference(t1, t2, names, n_inv, shared) if not ex.endswith('_trace') or ex == 'print_trace' else None
                 if why is None:
                     unexplained = h
                     break
@@ -666,6 +667,7 @@ def search_exports(ctx, exp_res, textdir, specs):
                                        '%s text depends on the schedule (%s): design %s gives %d distinct texts over %d '
                                        '(hash seed, allocation noise) configurations'
                                        % (ex, why, key, len(byhash), len(runs)), rep)
+        ctx.count('fastsim_equals_sim(informational, C02)', all(r.get('fast_equals_sim') for _, r in runs))
         # informational: exporters outside the property's byte-identical list
         for ex in sorted(r0.get('extra_sha', {})):
             ctx.count('distinct_texts(informational):' + ex, len({r['extra_sha'][ex] for _, r in runs}))
@@ -763,10 +765,10 @@ def run(ctx):
     ctx.notes.append('export workers done at %.1fs' % (time.time() - t0))
     search_exports(ctx, exp_res, textdir, specs)
     ctx.notes.append('search_exports done at %.1fs' % (time.time() - t0))
-    tie_emitters(ctx, exp_res, textdir, specs, per_design=1 if quick else 4)
+    tie_emitters(ctx, exp_res, textdir, specs, per_design=1 if quick else 2)
     ctx.notes.append('tie_emitters done at %.1fs' % (time.time() - t0))
-    pspecs = make_specs(ctx, 9 if quick else 80, 'p', ['plain', 'zeros', 'sani'])
-    pconfigs = make_configs(ctx, 2 if quick else 6, [0, 4])
+    pspecs = make_specs(ctx, 9 if quick else 60, 'p', ['plain', 'zeros', 'sani'])
+    pconfigs = make_configs(ctx, 2 if quick else 4, [0, 4])
     for s in pspecs:
         s['max_ops'] = 10
     pres, _ = run_workers(ctx, 'passes', pspecs, pconfigs, batch=3 if quick else 20, tag='pass')
